@@ -260,7 +260,7 @@ Section Loop.
                            PoolInv pl1 /\ pg pl1 = pg pl0 /\ j < maxc (pg pl0) /\ x = block (pg pl0) j /\
                            in_allocated_list m1 x = false /\ overlaps_allocated m1 x = false /\
                            cc_occupy c1 x = Ok c2 /\ m' = set_entry m1 p c2
-    | ADone _ Panic => True
+    | ADone _ Panic => False
     end.
 
   Lemma cover_init : cover (ARun 0 m0).
@@ -318,7 +318,8 @@ Section Loop.
         * (* a block skipped by the pool's own search: it is used in the pool itself *)
           replace j with (ev + (j - ev)) by lia. rewrite <- Hpos_eq.
           apply own_used_blocked; [rewrite <- Hu; apply Hskip; lia|cbn; rewrite Hpg; exact Hf0].
-    - destruct (cc_occupy c1 blk) as [c2|e|] eqn:Eo; cbn [cover]; try exact Logic.I.
+    - destruct (cc_occupy c1 blk) as [c2|e|] eqn:Eo; cbn [cover];
+        [| |unfold cc_occupy in Eo; destruct (pool_of c1 (cf blk)) as [q0|]; [destruct (occupy q0 blk)|]; discriminate Eo].
       { exists m1, c1, c2, pl', i. split; [exact Hms1|]. split; [subst m1; eapply get_set_entry_same; exact Hg|].
         split; [subst c1; apply pool_of_with_pool_same|]. split; [exact I'|].
         split; [rewrite Hpl'; exact Hpg|]. split; [rewrite <- Hpg; exact Hi|]. split; [rewrite <- Hpg; exact Hblk|].
@@ -586,4 +587,15 @@ Theorem prioritized_cidrs_refusal po lab held m node m' e ps :
 Proof.
   intros M Ho H. unfold prioritized_cidrs in H. rewrite Ho in H.
   eapply prioritized_try_refusal; [exact M|apply msim_refl|exact H].
+Qed.
+
+Theorem allocate_cidr_no_panic held m p f c pl :
+  get_entry m p = Some c -> pool_of c f = Some pl -> PoolInv pl -> gf (pg pl) = f ->
+  snd (allocate_cidr held m p f) <> Panic.
+Proof.
+  intros Hg Hp I Hf. unfold allocate_cidr. rewrite Hg, Hp.
+  assert (G : cover held p f m pl (N.iter (pmax pl + 1) (alloc_step held p f) (ARun 0 m))).
+  { apply N.iter_invariant; [intros st; apply (cover_step held p f m c pl Hg Hp I Hf)|apply (cover_init held p f m c pl Hg Hp I)]. }
+  destruct (N.iter (pmax pl + 1) (alloc_step held p f) (ARun 0 m)) as [ev m2|m2 r]; cbn; [discriminate|].
+  destruct r; [discriminate|discriminate|destruct G].
 Qed.
